@@ -62,8 +62,6 @@ def parseSettings (j : Json) : Except String (Option Settings) := do
     let es ← mapEntries j
     pure (some (← es.mapM (fun (k, v) => do pure (k, ← parseV1 v))))
 
-def jint (i : Int) : Json := Json.num (JsonNumber.fromInt i)
-
 def valJson : Val → Json
   | .int i => Json.arr #[Json.str "i", jint i]
   | .bool b => Json.arr #[Json.str "b", Json.bool b]
